@@ -5,7 +5,7 @@ import json
 import logging
 import os
 
-from harness import common, trees, treeimpl
+from harness import common, trees, treeimpl, updimpl
 from harness.common import cps, uncps
 
 BRIDGE = ('Gemato.Bridge.Profile', 'Gemato.Bridge.SrcUpdate')
@@ -185,7 +185,7 @@ def read_manifest(path):
     return m
 
 
-def check_repo(ctx, drv, root, pn, scen, wm=128, hashes=('BLAKE2B', 'SHA512'), prior_dirs=()):
+def check_repo(ctx, drv, root, pn, scen, wm=128, hashes=('BLAKE2B', 'SHA512'), prior_dirs=(), sort_expected=True):
     """placement / typing / IGNOREs / hashes / sorting / compression against the Lean policy functions; then verify"""
     found = {}
     for dp, dn, fn in os.walk(root):
@@ -242,7 +242,7 @@ def check_repo(ctx, drv, root, pn, scen, wm=128, hashes=('BLAKE2B', 'SHA512'), p
                 ctx.fail('entry-type', scen, f'{p}: {e.tag} expected {t}')
             if sorted(e.checksums) != sorted(hashes):
                 ctx.fail('hash-set', scen, f'{p}: {sorted(e.checksums)}')
-        if pn != 'default':
+        if pn != 'default' and sort_expected:
             keys = [(e.tag, e.path) for e in m.entries if e.tag != 'TIMESTAMP']
             if keys != sorted(keys):
                 ctx.fail('not-sorted', scen, rel)
@@ -265,25 +265,45 @@ def check_repo(ctx, drv, root, pn, scen, wm=128, hashes=('BLAKE2B', 'SHA512'), p
     return set(found)
 
 
+def run_tool(root, cmd, pn, hashes, wm, api_sort):
+    """create / update through the command line, or (api_sort is not 'cli') through the library with the profile's sorting
+    overridden by the caller - ManifestRecursiveLoader(..., sort=...) - which the command line cannot express"""
+    if api_sort == 'cli':
+        args = [cmd, '-p', pn]
+        if hashes is not None:
+            args += ['-H', ' '.join(hashes)]
+        if wm is not None:
+            args += ['-c', str(wm)]
+        return gemato_cli(args + [root]), args
+    o = {'create': cmd == 'create', 'profile': pn, 'sort': api_sort}
+    if hashes is not None:
+        o['hashes'] = list(hashes)
+    if wm is not None:
+        o['compress_watermark'] = wm
+    out, _eff = updimpl.run_update(root, 'Manifest', '', o)
+    return (0 if 'ok' in out else ('exc:' + out['err'] if treeimpl.is_internal(out) else 1)), [cmd, '-p', pn, 'api', json.dumps(o, sort_keys=True)]
+
+
 def one_repo(ctx, drv, odd):
     rng = ctx.rng
     root = common.scratch_dir('gv.c19.')
     try:
         cats = gen_repo(rng, root, odd)
         pn = rng.choice(['ebuild', 'old-ebuild', 'ebuild', 'old-ebuild', 'default'])
-        args = ['create', '-p', pn]
+        hashes_opt = None
         hashes = ('BLAKE2B', 'SHA512')
+        wm_opt = None
         wm = 128
         if pn == 'default' or rng.random() < 0.2:
-            hashes = rng.choice([('SHA256',), ('MD5', 'SHA1'), ('BLAKE2B', 'SHA512')])
-            args += ['-H', ' '.join(hashes)]
+            hashes = hashes_opt = rng.choice([('SHA256',), ('MD5', 'SHA1'), ('BLAKE2B', 'SHA512')])
         if pn != 'default' and rng.random() < 0.3:
-            wm = rng.choice([0, 1, 64, 200, 100000])
-            args += ['-c', str(wm)]
-        scen = {'op': 'create', 'args': args, 'categories': cats, 'odd': odd, 'seed': ctx.seed}
+            wm = wm_opt = rng.choice([0, 1, 64, 200, 100000])
+        api_sort = 'cli' if pn == 'default' or rng.random() < 0.65 else rng.choice([False, False, True, None])
         listing = sorted(os.path.relpath(os.path.join(dp, f), root) for dp, _d, fs in os.walk(root) for f in fs)
-        rc = gemato_cli(args + [root])
+        rc, args = run_tool(root, 'create', pn, hashes_opt, wm_opt, api_sort)
+        scen = {'op': 'create', 'args': args, 'categories': cats, 'odd': odd, 'seed': ctx.seed}
         ctx.count('profile:' + pn)
+        ctx.count('through:' + ('command line' if api_sort == 'cli' else 'library, sort=%s' % api_sort))
         ctx.case(json.dumps([args, listing]), True, {'args': args, 'files': listing[:12], 'exit': rc})
         scen['files'] = listing
         if rc != 0:
@@ -297,31 +317,41 @@ def one_repo(ctx, drv, odd):
             if v.get('ret') is not True:
                 ctx.fail('created-tree-does-not-verify', scen, json.dumps(v)[:200])
             return
-        prior = check_repo(ctx, drv, root, pn, scen, wm, hashes)
+        sort_expected = api_sort is not False
+        prior = check_repo(ctx, drv, root, pn, scen, wm, hashes, sort_expected=sort_expected)
         # edits, then update with the same profile: still as documented, still verifies
         files = [p for p in listing if not p.startswith(('distfiles/', 'local/', 'packages/', '.git/'))]
-        for _ in range(rng.randint(1, 3)):
-            k = rng.choice(['change', 'add', 'delete', 'add-package'])
-            if k == 'change' and files:
-                open(os.path.join(root, rng.choice(files)), 'ab').write(b'more')
-            elif k == 'add' and files:
-                open(os.path.join(root, os.path.dirname(rng.choice(files)), 'added-%d' % rng.randint(0, 9)), 'wb').write(b'new')
-            elif k == 'delete' and files:
-                p = files.pop(rng.randrange(len(files)))
-                os.unlink(os.path.join(root, p))
-            elif k == 'add-package' and cats:
-                c = rng.choice(cats)
-                os.makedirs(os.path.join(root, c, 'newpkg', 'files'), exist_ok=True)
-                open(os.path.join(root, c, 'newpkg', 'newpkg-1.ebuild'), 'wb').write(b'EAPI=8\n')
-                open(os.path.join(root, c, 'newpkg', 'files', 'p.patch'), 'wb').write(b'p')
-        uargs = ['update', '-p', pn] + args[3:]
-        rc = gemato_cli(uargs + [root])
-        scen2 = dict(scen, op='create+edit+update', update_args=uargs)
-        ctx.case(json.dumps([uargs, listing, 'u']), True)
-        if rc != 0:
-            ctx.fail('internal-error' if isinstance(rc, str) else 'update-failed', scen2, str(rc))
-            return
-        check_repo(ctx, drv, root, pn, scen2, wm, hashes, prior_dirs=prior)
+        for rnd in range(rng.choice([1, 1, 2])):
+            edits = []
+            for _ in range(rng.randint(1, 3)):
+                k = rng.choice(['change', 'add', 'delete', 'add-package', 'add-ebuild'])
+                edits.append(k)
+                if k == 'change' and files:
+                    open(os.path.join(root, rng.choice(files)), 'ab').write(b'more')
+                elif k == 'add' and files:
+                    open(os.path.join(root, os.path.dirname(rng.choice(files)), 'added-%d' % rng.randint(0, 9)), 'wb').write(b'new')
+                elif k == 'delete' and files:
+                    p = files.pop(rng.randrange(len(files)))
+                    os.unlink(os.path.join(root, p))
+                elif k == 'add-package' and cats:
+                    c = rng.choice(cats)
+                    os.makedirs(os.path.join(root, c, 'newpkg', 'files'), exist_ok=True)
+                    open(os.path.join(root, c, 'newpkg', 'newpkg-1.ebuild'), 'wb').write(b'EAPI=8\n')
+                    open(os.path.join(root, c, 'newpkg', 'files', 'p.patch'), 'wb').write(b'p')
+                elif k == 'add-ebuild' and cats:
+                    # a first (or another) ebuild in an existing package directory: the Manifest there may hold MISC/AUX only so far
+                    pkgs = sorted(os.path.join(c, d) for c in cats if os.path.isdir(os.path.join(root, c))
+                                  for d in os.listdir(os.path.join(root, c)) if os.path.isdir(os.path.join(root, c, d)))
+                    if pkgs:
+                        pk = rng.choice(pkgs)
+                        open(os.path.join(root, pk, '%s-%d.ebuild' % (os.path.basename(pk), rng.randint(3, 9))), 'wb').write(b'EAPI=8\n')
+            rc, uargs = run_tool(root, 'update', pn, hashes_opt, wm_opt, api_sort)
+            scen2 = dict(scen, op='create+edit+update', update_args=uargs, edits=edits, round=rnd)
+            ctx.case(json.dumps([uargs, listing, 'u', rnd, edits]), True)
+            if rc != 0:
+                ctx.fail('internal-error' if isinstance(rc, str) else 'update-failed', scen2, str(rc))
+                return
+            prior = check_repo(ctx, drv, root, pn, scen2, wm, hashes, prior_dirs=prior, sort_expected=sort_expected)
     finally:
         trees.rmtree(root)
 
